@@ -91,12 +91,15 @@ def run_case(case):
     strat, kind, norm = c["strategy"], c["integrand"], c["norm"]
     tol, mx_final = c["tol"], c["max_evaluations"]
     key = {"strategy": strat.split("_")[0]}
+    if strat.startswith("es_lag"):
+        key["grid"] = "lagrange"
     fails = []
     wr = c.get("reference", True)
     if not wr:
         key["reference"] = False
     sa, eo, lm, op, ref, seen, nrm = c13._make(strat, kind, norm, with_reference=wr)
-    U = sa.performSpatiallyAdaptiv(lm[0], lm[1], eo, tol=tol, max_evaluations=mx_final, print_output=False)
+    rf = strat.endswith("_recalc")        # periodic from-scratch recalculation of all areas (its schedule must survive an interruption)
+    U = sa.performSpatiallyAdaptiv(lm[0], lm[1], eo, tol=tol, max_evaluations=mx_final, print_output=False, recalculate_frequently=rf)
     u = _final(sa, U, strat)
     nk = [int(x) for x in U[6]]
     if "stop_at" not in c:        # baseline: report the evaluation indices of the uninterrupted run
@@ -105,7 +108,7 @@ def run_case(case):
     variant = c["variant"]
     key["variant"] = variant
     sa2, eo2, lm, op2, ref, seen2, nrm = c13._make(strat, kind, norm, with_reference=wr)
-    A = sa2.performSpatiallyAdaptiv(lm[0], lm[1], eo2, tol=tol, max_evaluations=nk[k] - 1, print_output=False,
+    A = sa2.performSpatiallyAdaptiv(lm[0], lm[1], eo2, tol=tol, max_evaluations=nk[k] - 1, print_output=False, recalculate_frequently=rf,
                                     reevaluate_at_end=(variant == "reevaluated_at_end_then_continue"))
     if [int(x) for x in A[6]] != nk[:k + 1]:
         raise core.HarnessError("interrupted run did not stop at evaluation %d: %r vs %r" % (k, list(A[6]), nk))
@@ -116,7 +119,8 @@ def run_case(case):
         _compare(u, _final(sa2, R, strat), "stop at evaluation %d, %s" % (k, variant), key, fails)
     elif variant == "perform_with_refinement_container":
         # the documented other way to continue: hand the refinement of the stopped run back to performSpatiallyAdaptiv
-        R = sa2.performSpatiallyAdaptiv(lm[0], lm[1], eo2, tol=tol, max_evaluations=mx_final, print_output=False, refinement_container=A[0])
+        R = sa2.performSpatiallyAdaptiv(lm[0], lm[1], eo2, tol=tol, max_evaluations=mx_final, print_output=False, refinement_container=A[0],
+                                        recalculate_frequently=rf)
         _compare(u, _final(sa2, R, strat), "stop at evaluation %d, performSpatiallyAdaptiv(refinement_container=...)" % k, key, fails)
     else:
         sa2.save_to_file(path)
@@ -132,11 +136,11 @@ def run_case(case):
             if not strat.startswith("cell"):
                 v2, v3 = np.asarray(sa2(LATTICE)), np.asarray(sa3(LATTICE))
                 # (the restored scheme may list its component grids in another order: summation order, i.e. rounding, may differ)
-                if v2.shape != v3.shape or float(np.max(np.abs(v2 - v3))) > 1e-13 * max(1.0, float(np.max(np.abs(v2)))):
+                if v2.shape != v3.shape or not (float(np.max(np.abs(v2 - v3))) <= 1e-13 * max(1.0, float(np.max(np.abs(v2))))):
                     fails.append(fail("restored_interpolation_differs", "stop at %d: max diff %r" % (k, float(np.max(np.abs(v2 - v3)))), key))
             e2, e3 = sa2.evaluate_final_combi(), sa3.evaluate_final_combi()
             r2, r3 = np.asarray(e2[0], dtype=float), np.asarray(e3[0], dtype=float)
-            if r2.shape != r3.shape or float(np.max(np.abs(r2 - r3))) > 1e-13 * max(1.0, float(np.max(np.abs(r2)))) or e2[1] != e3[1]:
+            if r2.shape != r3.shape or not (float(np.max(np.abs(r2 - r3))) <= 1e-13 * max(1.0, float(np.max(np.abs(r2))))) or e2[1] != e3[1]:
                 fails.append(fail("restored_reevaluation_differs", "stop at %d: saved %r restored %r" % (k, e2, e3), key))
             # the re-evaluation above must not disturb anything: restore once more and continue that copy
             sa2.save_to_file(path)
@@ -159,6 +163,10 @@ def main(ctx):
     noref = [(0.05, 400), (0.02, 400)] if q else [(0.05, 400), (0.02, 400), (0.01, 600)]
     base += [{"config": {"strategy": s, "integrand": k, "norm": "inf", "tol": tol, "max_evaluations": mx, "reference": False}}
              for s in (["dw", "es", "cell"] if q else strategies) for k in kinds[:2] for tol, mx in noref]
+    # a hierarchical high-order local grid (three splits before an extend), with and without periodic from-scratch recalculation
+    base += [{"config": {"strategy": s, "integrand": "peak", "norm": "inf", "tol": 1e-9, "max_evaluations": 300}} for s in ("es_lag", "es_lag_recalc")]
+    if not q:
+        base += [{"config": {"strategy": s, "integrand": k, "norm": "inf", "tol": 1e-9, "max_evaluations": 700}} for s in ("es_lag", "es_lag_recalc", "es_recalc") for k in ("peak", "vec")]
     ctx.determinism_probe(dict(config=dict(base[0]["config"], stop_at=1, variant="continue")))
     cases = []
     for bc, res in zip(base, ctx.map(base, chunksize=1)):
